@@ -50,7 +50,7 @@ struct Sys
 	// model
 	MSock m[NOBJ]; bool acc_alive = false;
 	std::map<std::string, std::string> treg, ureg; // "addr:port" -> owner name
-	std::string a1 = "10.0.0.1", a2;
+	std::string a1 = "10.0.0.7", a2; // the node's first address is numerically larger than its second one: "first" must mean the order in which they were given
 
 	explicit Sys(int v) : variant(v)
 	{
@@ -322,6 +322,12 @@ struct Sys
 		for (Obj o : { U0, U1 }) { ip::udp::socket* u = usock(o);
 			s += fmt("%d%d%d%d:%s:%s;", int(u->m_open), int(u->m_is_v4), int(bool(u->m_forwarder)), int(u->m_forwarder && u->m_forwarder->m_dst == static_cast<sim::sink*>(u)), eps(u->m_bound_to).c_str(), eps(u->m_user_bound_to).c_str()); }
 		s += fmt("acc%d", int(acc_alive));
+		// the reference's own state is part of the key: two histories whose real objects look alike but for which the reference
+		// expects different things (exactly the situation a defect produces) must not be merged
+		s += "|model:";
+		for (Obj o : { T0, T1, A0, U0, U1 }) { MSock const& x = m[o]; s += fmt("%d%d%d%d%d:%s:%d;", int(x.open), int(x.v4), int(x.bound), int(x.listening), int(x.connected), x.addr.c_str(), x.port); }
+		for (auto& kv : treg) s += kv.first + "=" + (kv.second.compare(0, 4, "Bcli") == 0 ? "Bcli" : kv.second) + ",";
+		s += "/"; for (auto& kv : ureg) s += kv.first + "=" + kv.second + ",";
 		return s;
 	}
 
@@ -413,6 +419,7 @@ struct RegistryEngine : Engine
 	{
 		ctx.watchdog_s = 10;
 		int variant = variant_masks[size_t(u / ops.size())]; int first = int(u % ops.size());
+		if (const char* only = ::getenv("VF_ONLY_UNIT")) if (uint64_t(std::atoll(only)) != u) return; // debugging aid
 		ctx.R.note("dump_states");
 		std::unordered_set<uint64_t> seen; // per unit: states reached through this first op
 		std::vector<std::vector<int>> frontier;
